@@ -30,11 +30,11 @@ func TestCheck(t *testing.T) {
 	sched.RunCheck(r, cfgs, sched.CheckOpts{
 		MaxBound:  vk.Pick(r, 3, 4),
 		JobMillis: vk.Pick(r, 1500, 4000),
-		What:      "all schedules of Persist + reader (Get, Seek) + writer (Put, Delete, PutChangeSet) threads on one shared MemCachedStore up to the preemption bound; every history checked for linearizability (porcupine v1.3.0) against an ordered map (Seek = atomic range read, PutChangeSet = atomic multi-write, Persist = no-op)",
+		What:      "all schedules of Persist + reader (Get, Seek, SeekAsync) + writer (Put, Delete, PutChangeSet) threads on one shared MemCachedStore up to the preemption bound; every history checked for linearizability (porcupine v1.3.0) against an ordered map (Seek = atomic range read, SeekAsync = atomic range read within the SeekAsync CALL, PutChangeSet = atomic multi-write, Persist = no-op)",
 		Assumptions: []string{
 			"cooperative scheduling: interleavings are explored at mutex operations only (the package has no other synchronisation); unsynchronised accesses are covered by the separate -race part",
 			"only combinations the doc comments allow: shared (non-private) MemCachedStore, any of Get/Put/Delete/PutChangeSet/Seek concurrent with Persist, concurrent Persist calls (plock)",
-			"SeekAsync is exercised only sequentially (other part): after the snapshot its goroutine touches captured data only",
+			"SeekAsync (round 3): the overlay turns its go statement into a logical thread, so the scan goroutine is schedule-explored (start, lock operations of the lower store); its unbuffered result channel stays a real channel and is drained by a free-running helper goroutine that touches nothing of the subject, so receives are no scheduling points. The operation of the history is the SeekAsync call (the layer's own content is fixed when it returns); for the per-key reading every key is read between the call and the end of the drain. A scan whose result no single moment of its call explains is reported as scan-not-for-the-moment-of-the-call:* when the scenario has no write+flush pair (the only known way into the lower store, key seek-not-atomic:*)",
 			"RWMutex writer preference is not modelled",
 		},
 	})
